@@ -414,6 +414,36 @@ def cond_context(tree, stmt, loop, counters=()):
     return out
 
 
+def callee_masked_args(p, f, call, pick_names):
+    """Caller-side names of array arguments that the project callee masks
+    (M1 store) at positions given by a parameter that receives the picks."""
+    r = p.resolve_expr(f.module, call.func) if isinstance(call.func, (ast.Name, ast.Attribute)) else None
+    if r is None or r[0] != "func":
+        return set()
+    g = r[1]
+    params = g.params()
+    bind = {}
+    for i, a in enumerate(call.args):
+        if i < len(params):
+            bind[params[i]] = a
+    for k in call.keywords:
+        if k.arg:
+            bind[k.arg] = k.value
+    recv = {pn for pn, a in bind.items() if names_in(a) & pick_names}
+    if not recv:
+        return set()
+    glocs = local_names(g.node) | set(g.all_param_names())
+    gv, _ = value_edges(g.node, glocs)
+    derived = forward_closure(recv, gv) | recv
+    out = set()
+    for (n, b, kind) in exclusion_statements(g.node, derived):
+        if b in bind:
+            bn = base_name(bind[b]) if not isinstance(bind[b], ast.Name) else bind[b].id
+            if bn:
+                out.add(bn)
+    return out
+
+
 def callee_exclusions(p, f, call, pick_names):
     """Does a project callee that receives a pick-derived argument exclude by
     M1/M2 on something that flows to its return value?"""
@@ -501,6 +531,12 @@ def check_exclusion_mechanisms(p, report, funcs, facts):
         ex = ex_all
         via_callee = False
         if not ex:
+            for st in ast.walk(L):
+                if isinstance(st, ast.Expr) and isinstance(st.value, ast.Call) and st.value is not S:
+                    masked = callee_masked_args(p, f, st.value, picks)
+                    if (masked & (back | ops)) and cond_context(tree, st, L, counters) <= s_ctx:
+                        via_callee = True
+        if not ex and not via_callee:
             for c in ast.walk(L):
                 if isinstance(c, ast.Call) and c is not S and callee_exclusions(p, f, c, picks):
                     # the call's result must feed the operand
